@@ -494,6 +494,58 @@ example : ((JournalRun.run JournalRun.Sys.init (C06Run.demoRun.take 9)).rep? "A"
       = some (3, 4, true) ∧
     (JournalRun.issue "A" (.setTrialStateValues 0 .complete (some [.fin 1]))).isSome = true := by decide
 
+/-- **processes_linearize_in_log_order_freshids_partial** — the form of `processes_linearize_in_log_order_partial` WITHOUT
+the issuer hypothesis `hpre`, for every run in which worker ids are never re-used (`FreshIds`: every `JournalStorage`
+object draws a fresh uuid4; decidable on the event list) and for a live worker `w` that is between calls
+(`pending w evs = 0`: every writer syncs before it returns; `C06Run.hpre_invariant`), any number of processes, appends
+and syncs of different workers interleaved freely:
+(1) the WRITER call `op` that `w` makes now is answered the contract's error for `op` in the fresh replay of the whole
+log before its record (its position in the log order), and if none is raised its replica then shows the contract's state
+after the call and has read the whole log;
+(2) the GETTER call `op` that `w` makes now (sync, then read through the generated getter `m`) raises nothing and
+answers the contract's read in the fresh replay of the whole log — everything appended before its sync, by whomever;
+(3) after a `call` the worker is between calls again (the discipline is kept by calls).
+With `processes_linearize_in_log_order_partial` (1)(2) (replica = replay of the prefix read; equal prefixes agree) the
+log order is a linearization order for errors, reads and state of EVERY call of EVERY process.
+PARTIAL — what remains: the VALUES returned by writers are proved per call in C06FrontGen (`front_unit_answers`,
+`front_create_new_trial_returns_own_id`, `front_claim_answer`) and not composed here; for `create_new_study` the value
+is NOT the contract's in one interleaving of the real code (known finding F36: the id is looked up by name after the
+sync, a foreign `delete_study` of that id in between kills the call) -/
+theorem processes_linearize_in_log_order_freshids_partial (evs : List JournalRun.Ev)
+    (hf : JournalRun.FreshIds evs = true) (w : String) (st : JState)
+    (h : (JournalRun.run JournalRun.Sys.init evs).rep? w = some st) (hp : JournalRun.pending w evs = 0) :
+    let log := (JournalRun.run JournalRun.Sys.init evs).log
+    (∀ op r, JournalRun.issue w op = some r →
+      let res := sync w st (log ++ [r]) (log ++ [r]).length
+      let cop := C06FrontGen.withRaised op (rejects (C06Run.fresh log) r == some .valueError)
+      (JournalRun.stepEv (JournalRun.run JournalRun.Sys.init evs) (.call w op)).rep? w = some res.1 ∧
+      res.2 = errOf (Storage.step (C06Run.fresh log) cop).2 ∧
+      (res.2 = none → res.1.spec = (Storage.step (C06Run.fresh log) cop).1 ∧ res.1.cursor = (log ++ [r]).length)) ∧
+    (∀ op m, C06FrontGen.getterBody op = some m →
+      let res := sync w st log log.length
+      (JournalRun.stepEv (JournalRun.run JournalRun.Sys.init evs) (.sync w)).rep? w = some res.1 ∧
+      res.2 = none ∧ m.answer w res.1 op = (Storage.step (C06Run.fresh log) op).2 ∧
+      (Storage.step (C06Run.fresh log) op).1 = C06Run.fresh log) ∧
+    (∀ op, JournalRun.pending w (evs ++ [.call w op]) = 0) := by
+  intro log
+  refine ⟨?_, ?_, fun op => by rw [C06Run.pending_call]; exact hp⟩
+  · intro op r hr res cop
+    obtain ⟨h1, h2, h3⟩ := C06Run.ack_is_contract_answer_run evs hf w st op r h hp hr
+    exact ⟨h1, h2, fun hn => ⟨(h3 hn).1, (h3 hn).2.1⟩⟩
+  · intro op m hm res
+    obtain ⟨h1, h2, h3, _⟩ := C06Run.sync_between_calls_reads_all evs hf w st h hp
+    obtain ⟨_, ha, hs⟩ := C06FrontGen.front_getter_is_contract_read w res.1 op m hm
+    have h3' : res.1.spec = C06Run.fresh log := h3
+    rw [h3'] at ha hs
+    exact ⟨h1, h2, ha, hs⟩
+
+/-- the hypotheses hold in `C06Run.demoRun` (three joined workers, a crash, a restore under a new id) for each live worker -/
+example : JournalRun.FreshIds C06Run.demoRun = true ∧
+    ((JournalRun.run JournalRun.Sys.init C06Run.demoRun).rep? "A").isSome = true ∧ JournalRun.pending "A" C06Run.demoRun = 0 ∧
+    ((JournalRun.run JournalRun.Sys.init C06Run.demoRun).rep? "D").isSome = true ∧ JournalRun.pending "D" C06Run.demoRun = 0 := by decide
+/-- … also in a state where the worker has NOT read everything: after `demoRun.take 9` A has read 3 of 4 records -/
+example : JournalRun.FreshIds (C06Run.demoRun.take 9) = true ∧ JournalRun.pending "A" (C06Run.demoRun.take 9) = 0 := by decide
+
 /-! ## non-vacuity: three threads of one object — create_new_study / create_new_trial / get_all_trials racing -/
 
 def demoJ : JProgs :=
